@@ -46,7 +46,7 @@ var scripts = map[string][]wr.ScriptEntry{
 // placements) on the real writer, single-stepped through its gates, and validates the recorded traces.
 func c16Driven(c *ev.Ctx) {
 	cfgs := map[string][]string{
-		"quick":    {"MC_BW_gen_quick_Script3", "MC_BW_gen_quick_ScriptB"},
+		"quick":    {"MC_BW_gen_quick_Script3", "MC_BW_gen_quick_ScriptA", "MC_BW_gen_quick_ScriptB"},
 		"thorough": {"MC_BW_gen_quick_Script3", "MC_BW_gen_quick_ScriptA", "MC_BW_gen_quick_ScriptB", "MC_BW_gen_thorough_Script4"},
 	}[c.Tier]
 	f, err := wr.NewFactory(3, KeyTypeForSeed(c.Seed))
